@@ -1,10 +1,32 @@
-use glam::DVec3;
-use meshless_voronoi::{Voronoi, Dimensionality};
-fn main(){
-    let g = vec![
-        DVec3::new(0.001,0.001,0.009), DVec3::new(0.001,0.601,0.601), DVec3::new(0.009,0.001,0.001),
-        DVec3::new(0.356,0.601,0.601), DVec3::new(0.601,0.601,0.001), DVec3::new(0.601,0.601,0.601)];
-    let v = Voronoi::build(&g, DVec3::ZERO, DVec3::ONE, Dimensionality::ThreeD, true);
-    let tot: f64 = v.cells().iter().map(|c| c.volume()).sum();
-    println!("total {}", tot);
+//! Ad-hoc inspection of one case file: library routes vs reference.
+use mvv::case::Case;
+use mvv::obs;
+use mvv::refmodel::{ref_cell, RefOpts};
+use meshless_voronoi::integrals::VolumeIntegral;
+fn main() {
+    let args: Vec<String> = std::env::args().collect();
+    let c = Case::load(&args[1]).unwrap();
+    println!("dim {} periodic {} anchor {:?} width {:?} n {}", c.dim, c.periodic, c.anchor, c.width, c.n());
+    let v = obs::build_full(&c);
+    let vi = obs::integrator(&c, None);
+    let a = vi.compute_cell_integrals::<VolumeIntegral>();
+    let b = if c.dim == 3 { Some(vi.clone().with_faces().compute_cell_integrals::<VolumeIntegral>()) } else { None };
+    for i in 0..c.n() {
+        let r = ref_cell(&c, i, &RefOpts::default());
+        let cell = vi.get_cell_at(i).unwrap();
+        let k = obs::vertex_kappa(cell).into_iter().fold(1., f64::max);
+        println!(
+            "cell {i} g={:?}\n   ref V={:e} S={:e} | build {:e} | integ {:e} | faces {:?} | nverts {} kappa {:e} sr {:e}",
+            c.gens[i], r.volume, r.surface, v.cells()[i].volume(), a[i].volume, b.as_ref().map(|b| b[i].volume), cell.vertices.len(), k,
+            v.cells()[i].safety_radius()
+        );
+        if args.len() > 2 {
+            for vx in &cell.vertices {
+                println!("      v {:?} dual {:?}", vx.loc, vx.dual);
+            }
+            for (pi, p) in cell.clipping_planes.iter().enumerate() {
+                println!("      plane {pi} n {:?} p {:?} right {:?} shift {:?}", p.plane.n, p.plane.p, p.right_idx, p.shift);
+            }
+        }
+    }
 }
